@@ -18,7 +18,7 @@ import tempfile
 import time
 
 HERE = os.path.dirname(os.path.dirname(os.path.abspath(__file__)))
-SEEDED = os.path.join(HERE, "seeded")
+SEEDED = os.path.join(HERE, os.environ.get("VF_SEEDED_DIR", "seeded"))  # VF_SEEDED_DIR=benign: behaviour-preserving refactorings (all checks must stay silent)
 PY = "/venv/bin/python"
 ALL = ["C%02d" % i for i in range(1, 20)]
 
@@ -94,11 +94,15 @@ def main():
         os.makedirs(dst, exist_ok=True)
         shutil.copy(os.path.join(src, "patch.diff"), os.path.join(dst, "patch.diff"))
         demo = "seeded_demo.py" if os.path.exists(os.path.join(src, "seeded_demo.py")) else "demo.py"
-        shutil.copy(os.path.join(src, demo), os.path.join(dst, "demo.py"))
+        if os.path.exists(os.path.join(src, "equivalence_check.py")):
+            shutil.copy(os.path.join(src, "equivalence_check.py"), os.path.join(dst, "equivalence_check.py"))
+        else:
+            shutil.copy(os.path.join(src, demo), os.path.join(dst, "demo.py"))
         if os.path.exists(os.path.join(src, "NOTES.md")):
             shutil.copy(os.path.join(src, "NOTES.md"), os.path.join(dst, "NOTES.md"))
         m = load_meta(sid)
-        m.update({"id": sid, "breaks_property": prop, "origin": "independent sub-agent given only the property text and a scratch worktree"})
+        m.update({"id": sid, "breaks_property" if "benign" not in SEEDED else "refactors_code_of": prop,
+                  "origin": "independent sub-agent given only the property text and a scratch worktree"})
         save_meta(sid, m)
         print("imported", sid)
         return 0
@@ -132,7 +136,7 @@ def main():
         for sid in ids(a.a):
             sd = os.path.join(SEEDED, sid)
             m = load_meta(sid)
-            props = ALL if a.all_props else (a.props.split(",") if a.props else [m.get("breaks_property")])
+            props = ALL if a.all_props else (a.props.split(",") if a.props else [m.get("breaks_property") or m.get("refactors_code_of")])
             d = tree(os.path.join(sd, "patch.diff"))
             res = m.setdefault("checks", {}).setdefault(a.tier, {})
             try:
